@@ -15,6 +15,12 @@
 
   Everything else (conversions, arithmetic, string functions, name resolution, predicates'
   truth rule, union, function calls) is a single definition shared by both.
+
+  A namespace prefix in a node test is expanded with the namespace declarations of the expression
+  context (§2.3), so a prefix that is not bound is an error of the expression, whatever the context
+  node-set: the per-node evaluation of a step resolves the node test once before it looks at the
+  context nodes (the set-at-a-time evaluation does so by construction), and both evaluators fail
+  with `unboundPrefix` also when there is no context node.
 -/
 import Xsel.Expr
 
@@ -317,6 +323,8 @@ def eval (sem : Sem) : Expr → Ctx → Except Err Val
     let b ← eval sem base c
     let s ← b.nodes?
     if sem.perNode || (!preds.isNil && s.length > 1) then
+      -- a prefix that is not bound is an error of the expression, whatever the context node-set
+      let _ ← NodeTest.apply c.a c.env ax t []
       let r ← concatMapE (fun n => do
         let l ← NodeTest.apply c.a c.env ax t (sem.axis c.a ax [n])
         applyPreds sem preds c l) s
